@@ -202,7 +202,7 @@ pub fn generate(rng: &mut Rng, tier: Tier) -> Plan {
     // backslashes, control characters, non-ASCII and titlecase letters, near-identical codes
     const EXOTIC: &[&str] = &[
         "us1", "usq", "us0", "usp", "e\"r", "a\\b", "\u{1c6}a", "éa", "x\ty", "a b", "£1", "ñx", "a\u{0}b",
-        "z.z", "{}1", "[1]", "0e0", "nan", "inf", "1e9", "-1.", "ωa", "ßa", "ǉa", "ǳa",
+        "z.z", "{}1", "[1]", "0e0", "nan", "inf", "1e9", "-1.", "ωa", "ßa", "ǉa", "ǳa", "aΣ", "bΣ", "Σa",
     ];
     let mut names: Vec<&str> = if rng.chance(0.05) {
         let mut v = EXOTIC.to_vec();
@@ -419,6 +419,53 @@ pub fn generate(rng: &mut Rng, tier: Tier) -> Plan {
     // the same pair named more than once in one update: the later entry is the latest quote
     let gen_valid_items = |rng: &mut Rng, cur: &Vec<Quote>, float_only: bool| -> Vec<Quote> {
         let mut items = gen_valid_items(rng, cur, float_only);
+        // numeric coincidences with what the market already holds: a complete update in
+        // which the current levels are handed round among the pairs (entry k carries the
+        // level stored at position k, under another pair), and a re-mark whose variable
+        // names are rotated while level and coefficient sequence stay as they are
+        if cur.len() >= 2 && rng.chance(0.03) {
+            let shift = rng.usize_in(1, cur.len() - 1);
+            let mut all: Vec<Quote> = (0..cur.len())
+                .map(|k| {
+                    let src = &cur[(k + shift) % cur.len()];
+                    Quote {
+                        lhs: src.lhs.clone(),
+                        rhs: src.rhs.clone(),
+                        num: Num::F(Fx::new(cur[k].num.value())),
+                        settle: src.settle,
+                        tod: src.tod,
+                    }
+                })
+                .collect();
+            if rng.chance(0.3) {
+                // ... or the first pair named in every position
+                for q in all.iter_mut() {
+                    q.lhs = cur[0].lhs.clone();
+                    q.rhs = cur[0].rhs.clone();
+                }
+            }
+            items = all;
+        } else if !float_only && rng.chance(0.03) {
+            for q in cur.iter() {
+                match &q.num {
+                    Num::D { v, g } if g.len() >= 2 => {
+                        let mut names: Vec<String> = g.iter().map(|(n, _)| n.clone()).collect();
+                        names.rotate_left(1);
+                        let g2 = names.into_iter().zip(g.iter().map(|(_, c)| *c)).collect();
+                        items = vec![Quote { lhs: q.lhs.clone(), rhs: q.rhs.clone(), num: Num::D { v: *v, g: g2 }, settle: q.settle, tod: q.tod }];
+                        break;
+                    }
+                    Num::D2 { v, g, h } if g.len() >= 2 => {
+                        let mut names: Vec<String> = g.iter().map(|(n, _)| n.clone()).collect();
+                        names.rotate_left(1);
+                        let g2 = names.into_iter().zip(g.iter().map(|(_, c)| *c)).collect();
+                        items = vec![Quote { lhs: q.lhs.clone(), rhs: q.rhs.clone(), num: Num::D2 { v: *v, g: g2, h: h.clone() }, settle: q.settle, tod: q.tod }];
+                        break;
+                    }
+                    _ => {}
+                }
+            }
+        }
         // currency codes are case-insensitive
         if rng.chance(0.06) {
             for it in items.iter_mut() {
@@ -1190,6 +1237,22 @@ fn probe(m: &Market, ctx: &str, step: usize, obs: &mut Obs) -> Result<(), Fail> 
                     }
                 }
                 lx[*xi] = l;
+            }
+            // a request that names a variable twice is answered for the de-duplicated list
+            if (i + j + step) % 7 == 0 && model_names.len() >= 2 && model_names.len() <= 2000 {
+                let mut req: Vec<String> = vec![model_names[0].clone(), model_names[0].clone()];
+                req.extend(model_names[1..].iter().cloned());
+                let dup = grad_of(&num, &req);
+                if dup.len() != got.len() || dup.iter().zip(got.iter()).any(|(a, b)| a.to_bits() != b.to_bits()) {
+                    return Err(v(
+                        "gradient-with-repeated-name",
+                        ctx,
+                        format!(
+                            "step {}: the gradient of {} asked with '{}' named twice is not the gradient for the de-duplicated list ({} entries vs {})",
+                            step, label, model_names[0], dup.len(), got.len()
+                        ),
+                    ));
+                }
             }
             // natural scale of each variable's sensitivity, over ALL quotes of the market:
             // an off-path (true zero) entry may carry rounding residue relative to it, and
